@@ -127,6 +127,12 @@ package types
 //@   ensures [C20.aac.copy,C01.batchorder] forall k int :: 0 <= k && k < len(result) ==> result[k] == old(s.elements[k])
 //@   ensures [C20.aac.cleared,C01.once] len(s.elements) == 0
 //@   ensures [C20.aac.lock] heldmode(s.mu) == 0
+// taking the elements and emptying the container is one step: both happen inside a single write-locked section (a Push
+// cannot land between the copy and the clear, two drains cannot return the same elements)
+//@   callsite (*Slice).all#1
+//@     assert [C20.aac.atomic.copy,C01.atomicdrain] heldmode(s.mu) == 2
+//@   callsite (*Slice).clear#1
+//@     assert [C20.aac.atomic.clear,C01.atomicdrain] heldmode(s.mu) == 2 && calls((*sync.RWMutex).Unlock) == 0 && calls((*sync.RWMutex).RUnlock) == 0
 
 //@ func (*Slice).Len()
 //@   props C20
